@@ -9,7 +9,7 @@ from gen_script import Gen
 
 PROP = "C10"
 NEEDS = ["model/Ebnf.v", "model/Lexer.v", "model/Viable.v", "gen/G4Data.v", "proofs/EbnfP.v", "proofs/LexerP.v", "proofs/LrecP.v",
-         "proofs/ViableP.v", "proofs/GrammarP.v", "gen/Facts.v", "proofs/FactsP.v", "proofs/ParserP.v", "proofs/CompleteP.v", "extract/Extract.v", "proofs/LexTotalP.v"]
+         "proofs/ViableP.v", "proofs/GrammarP.v", "gen/Facts.v", "proofs/FactsP.v", "proofs/ParserP.v", "proofs/CompleteP.v", "extract/Extract.v", "proofs/LexTotalP.v", "proofs/ParseFuelP.v"]
 SYN = re.compile(r"Blackbird SyntaxError \(line (\d+):(\d+)\)")
 
 
